@@ -31,7 +31,7 @@ ASSUMPTIONS = ["frames are built by vp.ref.codec.ubx_frame (independent Fletcher
 def floors(tier):
     return {"accepted": 2000, "kind=exact": 300, "kind=short": 200, "kind=long": 200,
             "kind=empty": 200, "kind=random": 200, "id=undoc-id": 100, "id=unknown-class": 100,
-            "mode=SETPOLL": 300, "len>=256": 10}
+            "mode=SETPOLL": 300, "len>=256": 10, "after-checksum-twin": 300}
 
 
 def plan(tier, seed):
@@ -43,6 +43,12 @@ def plan(tier, seed):
     for i in range(nsweep):
         specs.append({"what": "sweep", "part": i, "of": nsweep})
     return specs
+
+
+def G_min_size(t):
+    from vp.ref import grammar as G
+
+    return 0 if G.audit_fatal(t.defn) else G.min_size(t.defn)
 
 
 def _mk(clsid, payload, mode, bf, kind, idkind):
@@ -60,13 +66,21 @@ def run_shard(spec, ctx, acc):
         for ti in spec["targets"]:
             t = targets[ti]
             strat = st.builds(
-                lambda pk, mode, bf: _mk(t.clsid, pk[1], mode, bf, pk[0], "defined"),
+                lambda pk, mode, bf, val: dict(_mk(t.clsid, pk[1], mode, bf, pk[0], "defined"), validate=val),
                 frames.payload_for(t, max_payload=maxp, big_counts=(tier != "quick")),
                 st.sampled_from([t.mode, t.mode, 3, 0, 1, 2]),
                 st.sampled_from([0, 1]),
+                st.sampled_from([1, 1, 0]),
             )
             core.hyp_search(acc, strat, check, seed=core.derive(ctx["seed"], PROP, t.label),
                             max_examples=n, known=known, rounds=2)
+            twin = st.builds(
+                lambda pk, mode, bf, i, d: dict(_mk(t.clsid, pk[1], mode, bf, pk[0], "defined"), kind="twin", i=i, d=d),
+                frames.payload_for(t, kind="exact", max_payload=maxp).filter(lambda pk: len(pk[1]) >= 3),
+                st.sampled_from([t.mode, 3]), st.sampled_from([0, 1]), st.integers(0, 10 ** 6), st.integers(0, 254))
+            if G_min_size(t) >= 3:
+                core.hyp_search(acc, twin, check, seed=core.derive(ctx["seed"], PROP, "twin", t.label),
+                                max_examples=2 if tier == "quick" else 20, known=known, rounds=1)
         # undocumented IDs / unknown classes with arbitrary payloads
         odd = st.builds(
             lambda ck, p, mode, bf: _mk(ck[1], p, mode, bf, "random" if p else "empty", ck[0]),
@@ -95,19 +109,41 @@ def run_shard(spec, ctx, acc):
                         return
 
 
+def twin_payload(payload, i, d):
+    """A different payload of the same length with the same Fletcher checksum:
+    adding (+d, -2d, +d) to three consecutive bytes leaves both running sums
+    unchanged."""
+    b = bytearray(payload)
+    b[i] = (b[i] + d) % 256
+    b[i + 1] = (b[i + 1] - 2 * d) % 256
+    b[i + 2] = (b[i + 2] + d) % 256
+    return bytes(b)
+
+
 def check(case) -> core.Out:
     import pyubx2
 
     clsid, payload, mode, bf = bytes(case["clsid"]), bytes(case["payload"]), case["mode"], case["bf"]
+    if case.get("kind") == "twin":
+        # history: a frame with the same class, ID, length and checksum but a
+        # different payload is parsed immediately before the frame under test
+        first = codec.ubx_frame(clsid[0:1], clsid[1:2], payload)
+        payload = twin_payload(payload, case["i"] % (len(payload) - 2), 1 + case["d"] % 255)
+        try:
+            pyubx2.UBXReader.parse(first, msgmode=mode, parsebitfield=bf)
+        except Exception:  # noqa
+            pass
     frame = codec.ubx_frame(clsid[0:1], clsid[1:2], payload)
     classes = [f"kind={case.get('pkind')}", f"id={case.get('idkind')}", f"mode={C.MODES[mode]}",
-               f"bf={bf}"]
+               f"bf={bf}", f"validate={case.get('validate', 1)}"]
+    if case.get("kind") == "twin":
+        classes.append("after-checksum-twin")
     if len(payload) >= 256:
         classes.append("len>=256")
     out = core.Out(classes=classes, dig=core.digest((frame, mode, bf)))
     key = f"{PROP}|{C.MODES[mode]}|{clsid.hex()}|"
     try:
-        m = pyubx2.UBXReader.parse(frame, msgmode=mode, parsebitfield=bf)
+        m = pyubx2.UBXReader.parse(frame, msgmode=mode, parsebitfield=bf, validate=case.get("validate", 1))
     except C.ubx_errors():
         classes.append("rejected")
         return out
